@@ -1219,6 +1219,18 @@ class Interp:
                 v = self.eval(fi, e.args[0], env)
                 if isinstance(v, GroupV):
                     return v
+        if isinstance(f, ast.Attribute) and f.attr == "scaleb" and len(e.args) == 1:
+            # Decimal.scaleb(n): the value times 10**n - whatever the base of the prefix the exponent came from
+            x = self.eval(fi, f.value, env)
+            n_ = self.eval(fi, e.args[0], env)
+            if isinstance(x, NumV) and isinstance(n_, NumV):
+                atoms = n_.rat.atoms()
+                if n_.rat.d == Poly.const(1) and len(atoms) == 1 and n_.rat == Rat.atom(atoms[0]):
+                    ten = Rat(Poly({(("const:10", Lin.sym(atoms[0])),): Fraction(1)}))
+                    return NumV(x.rat * ten, x.ut)
+                lin = self.as_lin(n_)
+                if lin is not None and lin.is_const and lin.c.denominator == 1:
+                    return NumV(x.rat * Rat.const(Fraction(10) ** int(lin.c)), x.ut)
         if isinstance(f, ast.Attribute) and isinstance(f.value, ast.Name) and f.value.id == "math":
             args = [self.eval(fi, a, env) for a in e.args]
             if f.attr == "sqrt" and len(args) == 1 and isinstance(args[0], NumV):
